@@ -163,15 +163,13 @@ example : TECMP_Decoder_GetInterfacePayload_obj 5 ([9] ++ exBus.drop 28 ++ []) 1
 
 /-! ## the TECMP decoder as the parameter `ext_Decode` of the translated `Decoder::decode`
 
-  `Decoder_decode_obj` (GeneratedSrcObj.lean) takes the TECMP decoder as a parameter `ext_Decode : Bytes → Nat → Nat → List PktOut`
-  and `SrcDec.decode_other_src` says: a TECMP buffer (first byte 0) changes no decoder state and returns `ext_Decode m data size`
-  as is.  `PktOut` is the image of `std::make_shared<Packet>(messageType, data, size)` (the packet read back from message bytes by
-  `Packet.ofMsg`); a TECMP packet is built by SETTERS and cannot in general be written as such an image (e.g. an interface status
-  packet carries its own interface id, which `Packet.ofMsg` only fills in for data messages).  What composes is therefore stated
-  on the model side of `toPacket`: -/
+  `Decoder_decode_obj` (GeneratedSrcObj.lean) takes the TECMP decoder as a parameter `ext_Decode : Bytes → Nat → Nat → List F` for
+  ANY packet representation `F` and returns a list of `PktOut ⊕ F`: packets of the CMP path (`std::make_shared<Packet>(type, data,
+  size)` read back by `Packet.ofMsg`) on the left, the TECMP decoder's packets — built by setters, not representable as `PktOut`
+  in general — on the right.  The instance the TRANSLATION provides is `tecmpExt`; the theorem covering `Decoder::decode` on every
+  buffer with it plugged in is `SrcDec.decode_total_src` (Props/SrcDecoderTotal.lean). -/
 
-/-- the translated TECMP decoder as a total function into the packet model (`none` of the monad — never taken, see
-    `tecmpDecode_src` — and null pointers — never produced — are dropped) -/
+/-- a packet of the translated source read as a packet of the model (inverse of `tRepr`) -/
 def tAbs (t : TPacket_St) : Packet :=
   { payload := t.payload.map fun x => ⟨x.1, x.2⟩, version := t.hdr.f_version, deviceId := t.hdr.f_deviceId,
     streamId := t.hdr.f_streamId, seq := t.hdr.f_sequenceCounter, ts := t.hdr.f_timestamp, ifId := t.hdr.f_interfaceId,
@@ -182,34 +180,46 @@ theorem tAbs_tRepr (p : Packet) : tAbs (tRepr p) = p := by
   | mk payload version deviceId streamId seq ts ifId vendorId flags segType =>
     cases payload <;> rfl
 
-def extOfTranslation (fuel : Nat) (m : Bytes) (data size : Nat) : List Packet :=
-  ((TECMP_Decoder_Decode_obj fuel m data size).getD []).filterMap fun x => x.map tAbs
+/-- the translated `TECMP::Decoder::Decode` as a TOTAL function into lists of packets, as `Decoder_decode_obj` wants it: `none` of
+    the monad (undefined behaviour — never taken, see `tecmpDecode_src`) becomes the empty list, null pointers in the returned
+    vector (never produced) are dropped -/
+def tecmpExt (fuel : Nat) (m : Bytes) (data size : Nat) : List TPacket_St :=
+  ((TECMP_Decoder_Decode_obj fuel m data size).getD []).filterMap id
+
+/-- on every buffer the instance is exactly the representation of the model's packets -/
+theorem tecmpExt_src (pre b post : Bytes) (fuel : Nat) (hpre : 0 < pre.length)
+    (hmem : (pre ++ b ++ post).length < 2 ^ 64) (hf : b.length ≤ fuel) :
+    tecmpExt fuel (pre ++ b ++ post) pre.length b.length = (tecmpDecode b).map tRepr := by
+  unfold tecmpExt
+  rw [tecmpDecode_src pre b post fuel hpre hmem hf, Option.getD_some, List.filterMap_map]
+  simp [Function.comp_def]
+
+def extOfTranslation (fuel : Nat) (m : Bytes) (data size : Nat) : List Packet := (tecmpExt fuel m data size).map tAbs
 
 /-- the instance of `ext_Decode` the translation provides, read as model packets, IS the model's TECMP decoder -/
 theorem ext_of_translation (pre b post : Bytes) (fuel : Nat) (hpre : 0 < pre.length)
     (hmem : (pre ++ b ++ post).length < 2 ^ 64) (hf : b.length ≤ fuel) :
     extOfTranslation fuel (pre ++ b ++ post) pre.length b.length = tecmpDecode b := by
   unfold extOfTranslation
-  rw [tecmpDecode_src pre b post fuel hpre hmem hf, Option.getD_some, List.filterMap_map]
+  rw [tecmpExt_src pre b post fuel hpre hmem hf, List.map_map]
   simp [Function.comp_def, tAbs_tRepr]
 
-/-- composition with `SrcDec.decode_other_src`: for every `ext` that represents the translated TECMP decoder's packets
-    (`ext … .map toPacket = extOfTranslation …`), the translated `Decoder::decode` on a TECMP buffer leaves the state alone and
-    returns packets that read, through `toPacket`, as the model's `tecmpDecode b` — the TECMP branch of the model's `decode`. -/
-theorem decode_tecmp_src (s : Decoder_St) (pre b post : Bytes) (fuel : Nat) (ext : Bytes → Nat → Nat → List PktOut)
-    (hext : (ext (pre ++ b ++ post) pre.length b.length).map SrcDec.toPacket =
-      extOfTranslation fuel (pre ++ b ++ post) pre.length b.length)
+/-- composition with `SrcDec.decode_other_src`: the translated `Decoder::decode` with the translated TECMP decoder plugged in, on a
+    TECMP buffer (first byte 0): the state is left alone and the returned packets — right summands only — are, through `tAbs`,
+    the model's `tecmpDecode b`; `g` (the reading of left summands) is arbitrary because there are none -/
+theorem decode_tecmp_src (s : Decoder_St) (pre b post : Bytes) (fuel : Nat) (g : PktOut → Packet)
     (hpre : 0 < pre.length) (h8 : 8 ≤ b.length) (h0 : byteAt b 0 = 0)
     (hmem : (pre ++ b ++ post).length < 2 ^ 64) (hf : b.length ≤ fuel) :
-    ∃ outs, Decoder_decode_obj fuel s (pre ++ b ++ post) pre.length b.length ext = some (s, outs) ∧
-      outs.map SrcDec.toPacket = tecmpDecode b := by
+    Decoder_decode_obj fuel s (pre ++ b ++ post) pre.length b.length (tecmpExt fuel) =
+        some (s, ((tecmpDecode b).map tRepr).map Sum.inr) ∧
+      (((tecmpDecode b).map tRepr).map (Sum.inr : TPacket_St → PktOut ⊕ TPacket_St)).map (Sum.elim g tAbs) = tecmpDecode b := by
   have hb0 : byteAt (pre ++ b ++ post) pre.length = 0 := by
     have := leAt_mid pre b post 0 1 (by omega)
     rw [leAt_one, leAt_one] at this
     simpa [h0] using this
-  refine ⟨ext (pre ++ b ++ post) pre.length b.length, ?_, ?_⟩
-  · exact (SrcDec.decode_other_src s (pre ++ b ++ post) pre.length b.length fuel ext).2.2 hpre h8
-      (by simp only [List.length_append]; omega) hb0
-  · rw [hext, ext_of_translation pre b post fuel hpre hmem hf]
+  constructor
+  · rw [(SrcDec.decode_other_src s (pre ++ b ++ post) pre.length b.length fuel (tecmpExt fuel)).2.2 hpre h8
+      (by simp only [List.length_append]; omega) hb0, tecmpExt_src pre b post fuel hpre hmem hf]
+  · simp [List.map_map, Function.comp_def, tAbs_tRepr]
 
 end AsamCmp.SrcTec
